@@ -131,6 +131,11 @@ func InstallHooks() {
 		}
 		s.Yield(point)
 	}
+	simhook.YieldHeldFn = func(point string) {
+		if s := sim.Cur(); s != nil {
+			s.YieldHeld(point)
+		}
+	}
 	simhook.AliasFn = func(key string) {
 		if s := sim.Cur(); s != nil {
 			s.Alias(key)
